@@ -916,6 +916,16 @@ def big_compare(ctx):
 
 
 
+def int_utf_tie(ctx):
+    """a_utf_len (str.c) with its callees a_utf_decode / a_utf_length (utf.c) regenerated by tools/c2int.py; the callees' ties are
+    C18's files re-proved against this module, harness/C06/TieIntUtf.v ties a_utf_len to StrAccDefs.utf_len for every block"""
+    h18 = vlib.VERIF / "harness" / "C18"
+    return ctx.int_translate_and_tie(
+        [("src/utf.c", ["a_utf_decode", "a_utf_length"]), ("src/str.c", ["a_utf_len"])], "UtfGen",
+        [h18 / "TieIntDec.v", h18 / "TieIntLen.v", vlib.VERIF / "harness" / "C06" / "TieIntUtf.v"],
+        fuel={"a_utf_decode": ["8%nat", "8%nat"], "a_utf_length": ["S (N.to_nat num)"]})
+
+
 def run(ctx):
     if not ctx.quick:
         # rebuild this property's files from clean
@@ -937,6 +947,7 @@ def run(ctx):
         # second tie, in parallel with the correspondence: the functions of str.c regenerated by tools/c2str.py and proved
         # equal to the model (harness/C06/TieStr*.v)
         tie_job = tie_ex.submit(vstr.str_translate_and_tie, ctx)
+        tie_job_utf = tie_ex.submit(int_utf_tie, ctx)      # a_utf_len: integer translator tools/c2int.py (after the string tie, same worker)
         for r in ex.map(lambda ch: process(cbin, mbin, ch), chunks):
             tot["ops"] += r["ops"]
             tot["mismatch"] += r["mismatch"]
@@ -946,6 +957,7 @@ def run(ctx):
             for k, v in r["branches"].items():
                 tot["branches"][k] = tot["branches"].get(k, 0) + v
     tie_job.result()
+    tie_job_utf.result()
     ctx.count(evaluations=tot["ops"], nontrivial=len(tot["nontrivial"]))
     ctx.cov["rule"] = ("evaluations = operations executed by both the C implementation and the extracted model and compared "
                        "line by line (return value, both objects' num/mem/whole heap block, allocator events); "
@@ -1043,8 +1055,11 @@ META = {
             "model for all strings, arguments and schedules. The invariant is not assumed except, stated exactly: num < 2^64 for "
             "the trims and num <= |block| for ltrim/trim (both consequences of the proved invariant), |out| < INT_MAX for catv (the "
             "precondition of the formatted append in every theorem). isspace, memchr, vsnprintf and a_utf_encode enter by their "
-            "contracts. Correspondence-only: a_str_catf (variadic wrapper), a_utf_len, the accessors a_str_ptr/len/mem/at/at_/of, "
-            "a_str_new/die/ctor.",
+            "contracts. a_utf_len (a pure integer/byte walk: a_utf_length on ctx->ptr_, ctx->num_) is regenerated with its callees "
+            "a_utf_decode and a_utf_length by the integer translator tools/c2int.py and PROVED equal to StrAccDefs.utf_len for every "
+            "block of bytes, every num_ <= |block| and both stop forms (harness/C06/TieIntUtf.v, on top of the C18 decoder/length "
+            "ties re-proved against the same regenerated module). Correspondence-only: a_str_catf (variadic wrapper), the accessors "
+            "a_str_ptr/len/mem/at/at_/of, a_str_new/die/ctor.",
     "note": "Trusted: Coq kernel; extraction (ExtrOcamlBasic only) + drivers; translator tools/c2str.py as a reader of the C (its "
             "output is proved equal to the model on every run, so it is not trusted to agree with the model); hand-written model "
             "coq/C06/StrDefs.v tied by the translator theorems for the functions listed and by "
